@@ -187,39 +187,52 @@ fn run_conn(id: u64, limit: u64, stream: &[u8], ops: &[Arg], out: &mut Vec<Strin
         let l = op.l();
         let pre = format!("conn {} {} ", id, i);
         let line = catch_unwind(AssertUnwindSafe(|| match l[0].n() {
-            0 | 1 => {
-                let plan = if l[0].n() == 0 {
-                    ReadPlan::Take(l[1].n() as usize, l[2].n() as usize)
-                } else {
-                    ReadPlan::Fail(l[1].n() as i32)
-                };
-                let mut before = 0;
-                mock(&mut |s| {
-                    s.read_plan = Some(plan.clone());
-                    before = s.recv_calls;
-                });
-                let r = conn.try_read();
-                let mut after = 0;
-                mock(&mut |s| {
-                    s.read_plan = None;
-                    after = s.recv_calls;
-                });
-                let mut reqs = String::new();
-                let mut popped = vec![];
-                while let Some(req) = conn.pop_parsed_request() {
-                    reqs.push_str(" | ");
-                    reqs.push_str(&request_s(&req, &files_s(&req)));
-                    popped.push(req);
+            0 | 1 | 2 => {
+                let mut lines = vec![];
+                loop {
+                    let plan = match l[0].n() {
+                        0 => ReadPlan::Take(l[1].n() as usize, l[2].n() as usize),
+                        1 => ReadPlan::Fail(l[1].n() as i32),
+                        _ => ReadPlan::Take(l[1].n() as usize, 0),
+                    };
+                    let mut before = 0;
+                    let mut exhausted = false;
+                    mock(&mut |s| {
+                        s.read_plan = Some(plan.clone());
+                        before = s.recv_calls;
+                        exhausted = s.pos >= s.rest.len();
+                    });
+                    if l[0].n() == 2 && exhausted {
+                        break;
+                    }
+                    let r = conn.try_read();
+                    let mut after = 0;
+                    mock(&mut |s| {
+                        s.read_plan = None;
+                        after = s.recv_calls;
+                    });
+                    let mut reqs = String::new();
+                    let mut popped = vec![];
+                    while let Some(req) = conn.pop_parsed_request() {
+                        reqs.push_str(" | ");
+                        reqs.push_str(&request_s(&req, &files_s(&req)));
+                        popped.push(req);
+                    }
+                    drop(popped);
+                    lines.push(format!(
+                        "{}rd={} sys={} held={} pend={}{}",
+                        pre,
+                        rd_s(&r),
+                        after - before,
+                        conn.verif_digest()[8],
+                        conn.pending_write() as u8,
+                        reqs
+                    ));
+                    if l[0].n() != 2 || r.is_err() {
+                        break;
+                    }
                 }
-                drop(popped);
-                format!(
-                    "{}rd={} sys={} held={}{}",
-                    pre,
-                    rd_s(&r),
-                    after - before,
-                    conn.verif_digest()[8],
-                    reqs
-                )
+                lines.join("\n")
             }
             3 | 4 | 5 => {
                 let plan = match l[0].n() {
@@ -268,7 +281,11 @@ fn run_conn(id: u64, limit: u64, stream: &[u8], ops: &[Arg], out: &mut Vec<Strin
             _ => format!("{}?", pre),
         }));
         match line {
-            Ok(s) => out.push(s),
+            Ok(s) => {
+                if !s.is_empty() {
+                    out.push(s)
+                }
+            }
             Err(_) => {
                 out.push(format!("{}RUST-PANIC", pre));
                 // the connection may be in an arbitrary state; stop this case
